@@ -60,7 +60,11 @@ func (s *genStats) screen(prog []*gt, query *gt, max int) bool {
 	for i, c := range prog {
 		p[i] = renumber(c)
 	}
-	switch refSolveQuery(p, q, max, false).abort {
+	why := refSolveQuery(p, q, max, false).abort
+	if why != "" && os.Getenv("VERIF_GENSTATS") == "2" {
+		fmt.Fprintf(os.Stderr, "DROP %s %s\n", why, answersPayload(max, query, prog))
+	}
+	switch why {
 	case "":
 		return true
 	case "steps":
@@ -180,22 +184,24 @@ func (g *c01Gen) goal(from, d int) *gt {
 	k := g.r.Intn(100)
 	userCall := func() *gt {
 		lo := from
-		if g.r.Intn(8) == 0 {
+		if g.r.Intn(20) == 0 {
 			lo = 0 // unguarded (possibly recursive) call: screened by the step budget
 		}
 		if lo >= len(g.preds) {
 			return gApp("=", g.variable(), g.term(2))
 		}
 		p := g.preds[lo+g.r.Intn(len(g.preds)-lo)]
-		return g.callTo(p, 2, g.r.Intn(10) > 0)
+		return g.callTo(p, 2, g.r.Intn(16) > 0)
 	}
 	switch {
 	case k < 40:
 		return userCall()
-	case k < 55:
+	case k < 52:
 		return gApp("=", g.variable(), g.term(2))
+	case k < 55:
+		return gApp("between", gInt(int64(g.r.Intn(2))), gInt(int64(1+g.r.Intn(2))), g.variable())
 	case k < 65:
-		return gApp("member", g.term(1), g.list(1, g.r.Intn(8) == 0))
+		return gApp("member", g.term(1), g.list(1, g.r.Intn(20) == 0))
 	case k < 73:
 		switch g.r.Intn(3) {
 		case 0:
@@ -203,6 +209,9 @@ func (g *c01Gen) goal(from, d int) *gt {
 		case 1:
 			return gApp("append", g.list(1, false), g.term(1), g.variable())
 		default:
+			if g.r.Intn(4) > 0 {
+				return gApp("append", g.list(1, false), g.list(1, false), g.term(1))
+			}
 			return gApp("append", g.term(1), g.list(1, false), g.term(1))
 		}
 	case k < 81 && d > 0:
@@ -332,7 +341,7 @@ func (g *c01Gen) query() *gt {
 	for i := range gs {
 		if g.r.Intn(4) > 0 {
 			p := g.preds[g.r.Intn(len(g.preds))]
-			gs[i] = g.callTo(p, 2, g.r.Intn(5) > 0)
+			gs[i] = g.callTo(p, 2, g.r.Intn(8) > 0)
 		} else {
 			gs[i] = g.goal(0, 2)
 		}
@@ -396,10 +405,21 @@ func (g *c03Gen) xy() *gt { return gVar(g.r.Intn(2)) }
 // simple goal without cut
 func (g *c03Gen) simple() *gt {
 	switch k := g.r.Intn(100); {
-	case k < 5:
+	case k < 3:
 		return gAtom("true")
-	case k < 12:
+	case k < 8:
 		return gAtom("fail")
+	case k < 12:
+		switch g.r.Intn(4) {
+		case 0:
+			return gApp("var", g.xy())
+		case 1:
+			return gApp("nonvar", g.xy())
+		case 2:
+			return gApp("\\=", g.xy(), gInt(int64(1+g.r.Intn(2))))
+		default:
+			return gApp("between", gInt(1), gInt(int64(2+g.r.Intn(2))), g.xy())
+		}
 	case k < 37:
 		return gApp("a", g.xy())
 	case k < 55:
@@ -428,8 +448,15 @@ func (g *c03Gen) simple() *gt {
 func (g *c03Gen) seq(d int, withCut bool) *gt {
 	n := 1 + g.r.Intn(2) + g.r.Intn(2)
 	gs := make([]*gt, n)
+	forced := -1
+	if withCut && g.r.Intn(2) == 0 {
+		if n < 2 {
+			n, gs = 2, make([]*gt, 2)
+		}
+		forced = 1 + g.r.Intn(n-1) // a cut after at least one goal
+	}
 	for i := range gs {
-		if withCut && g.r.Intn(4) == 0 {
+		if i == forced || (withCut && g.r.Intn(5) == 0) {
 			gs[i] = gAtom("!")
 		} else {
 			gs[i] = g.item(d, withCut)
@@ -614,9 +641,17 @@ func genC03Answers(r *rand.Rand, n int, tier string) []string {
 	var out []string
 	var st genStats
 	if tier == "thorough" {
-		// every skeleton of the enumeration is covered by any three consecutive seeds
-		// (the first draw of the PRNG identifies the seed's residue class)
-		out = append(out, c03Exhaustive(int(r.Int63()%3), 3)...)
+		// the enumeration is split over three consecutive seeds (bin/check runs the thorough tier
+		// with seeds s, s+1, s+2); without a -seed argument the whole enumeration is produced
+		part, parts := 0, 1
+		for i, a := range os.Args {
+			if (a == "-seed" || a == "--seed") && i+1 < len(os.Args) {
+				if sd, err := strconv.Atoi(os.Args[i+1]); err == nil {
+					part, parts = ((sd%3)+3)%3, 3
+				}
+			}
+		}
+		out = append(out, c03Exhaustive(part, parts)...)
 	}
 	g := &c03Gen{r: r}
 	for k := 0; k < n; {
@@ -702,22 +737,22 @@ func (g *c04Gen) errGoal() *gt {
 
 func (g *c04Gen) leaf() *gt {
 	k := g.r.Intn(100)
-	if k >= 63 && k < 88 && !g.protected && g.r.Intn(3) > 0 {
-		k = g.r.Intn(63) // outside every catch/3 most throws are replaced by ordinary goals
+	if k >= 60 && k < 88 && !g.protected && g.r.Intn(3) > 0 {
+		k = g.r.Intn(60) // outside every catch/3 most throws are replaced by ordinary goals
 	}
 	switch {
-	case k < 20:
+	case k < 26:
 		return gApp("a", g.xy())
-	case k < 32:
+	case k < 40:
 		return gApp("b", g.xy())
-	case k < 42:
+	case k < 46:
 		return gApp("==", g.xy(), gInt(int64(1+g.r.Intn(3))))
-	case k < 50:
+	case k < 54:
 		g.mark++
 		return gApp("=", gVar(c04R), gApp("k", gInt(int64(g.mark))))
-	case k < 58:
+	case k < 57:
 		return gAtom("true")
-	case k < 63:
+	case k < 60:
 		return gAtom("fail")
 	case k < 80:
 		return gApp("throw", g.ball())
@@ -793,12 +828,7 @@ func (g *c04Gen) goal(d int) *gt {
 	}
 	switch k := g.r.Intn(100); {
 	case k < 55:
-		c, rec := g.catcherRecovery(d)
-		saved := g.protected
-		g.protected = true
-		goal := g.seq(d - 1)
-		g.protected = saved
-		return gApp("catch", goal, c, rec)
+		return g.catchGoal(d)
 	case k < 61:
 		return gApp(";", g.seq(d-1), g.seq(d-1))
 	case k < 67:
@@ -820,11 +850,23 @@ func (g *c04Gen) goal(d int) *gt {
 	}
 }
 
+func (g *c04Gen) catchGoal(d int) *gt {
+	c, rec := g.catcherRecovery(d)
+	saved := g.protected
+	g.protected = true
+	goal := g.seq(d - 1)
+	g.protected = saved
+	return gApp("catch", goal, c, rec)
+}
+
 func (g *c04Gen) body(d int) *gt {
 	n := 1 + g.r.Intn(2) + g.r.Intn(2)
+	forced := g.r.Intn(n) // every body has a catch/3 among its direct conjuncts
 	var gs []*gt
 	for i := 0; i < n; i++ {
-		if g.r.Intn(12) == 0 {
+		if i == forced {
+			gs = append(gs, g.catchGoal(d))
+		} else if g.r.Intn(12) == 0 {
 			gs = append(gs, gAtom("!"))
 		} else {
 			gs = append(gs, g.goal(d))
@@ -841,7 +883,16 @@ func (g *c04Gen) program() []*gt {
 	depth := 2 + g.r.Intn(3) // nesting of catch up to 4
 	for c := 0; c < 1+g.r.Intn(2); c++ {
 		g.local = c04Local
-		prog = append(prog, gApp(":-", gApp("p", gVar(c04X), gVar(c04Y), gVar(c04R)), g.body(depth)))
+		body := g.body(depth)
+		switch g.r.Intn(10) {
+		case 0, 1, 2: // a last line of defence that catches everything
+			g.mark++
+			body = gApp("catch", body, g.newLocal(), gApp("=", gVar(c04R), gApp("top", gInt(int64(g.mark)))))
+		case 3, 4: // ... or every error
+			e := g.newLocal()
+			body = gApp("catch", body, gApp("error", e, g.newLocal()), gApp("=", gVar(c04R), gApp("e", e)))
+		}
+		prog = append(prog, gApp(":-", gApp("p", gVar(c04X), gVar(c04Y), gVar(c04R)), body))
 	}
 	if g.hasQ {
 		hq := g.hasQ
